@@ -385,8 +385,10 @@ static void group_main(const Group& g, int64_t max_pool_bytes, int maxlen, const
 {
     World w;
     FILE* f = fdopen(out, "w");
+    double t_a = vx::elapsed();
     std::string e = w.Setup(g, max_pool_bytes);
     if (!e.empty()) { fprintf(f, "H\t%s\n", e.c_str()); fclose(f); _exit(0); }
+    if (getenv("C29_TIMING")) fprintf(stderr, "[C29 timing] group %s/%d setup %.2fs\n", STNAME[g.state], g.profile, vx::elapsed() - t_a);
     uint64_t ncases = 0, nviol = 0;
     std::set<std::string> sigs, vkeys;
     bool incomplete = false;
@@ -440,6 +442,7 @@ static void group_main(const Group& g, int64_t max_pool_bytes, int maxlen, const
         }
     };
     rec();
+    if (getenv("C29_TIMING")) fprintf(stderr, "[C29 timing] group %s/%d %llu cases done at %.2fs\n", STNAME[g.state], g.profile, (unsigned long long)ncases, vx::elapsed() - t_a);
     for (auto& s : sigs) fprintf(f, "G\t%s\n", s.c_str());
     fprintf(f, "S\t%" PRIu64 "\t%" PRIu64 "\t%d\n", ncases, nviol, incomplete ? 1 : 0);
     fclose(f);
